@@ -344,3 +344,41 @@ func VH_C10_Choose() {
 	symTag("hist:" + hist)
 	symCover("rendered")
 }
+
+// ---- C10.vars: "with the same variables" ----------------------------------------------------------------
+
+// VH_C10_Vars: layouts, blocks and parent() see the variables of the render exactly as a template
+// without inheritance sees them: context values (one of them also registered as an engine global with
+// another value, one only a global, one present with a null value or absent) are read at top level of a
+// plain template, and at every level of a chain of depth 1..2: in the layout outside blocks, in a default
+// block body, in an overriding block and in what parent() renders.
+func VH_C10_Vars() {
+	x := symStringIn(1, "ab")
+	hasZ := symBool()
+	depth := 1 + symChoice(2)
+	e := New()
+	e.AddGlobal("x", "GX")
+	e.AddGlobal("g", "GG")
+	probe := "{{ x }},{{ g }},{% if z is defined %}D{% else %}U{% endif %},{{ z is null ? 'N' : 'V' }},{{ y|default('dy') }}"
+	e.RegisterString("plain", probe)
+	e.RegisterString("l0", "<"+probe+"|{% block a %}"+probe+"{% endblock %}|{% block b %}"+probe+"{% endblock %}>")
+	e.RegisterString("l1", "{% extends 'l0' %}{% block a %}1:"+probe+"({{ parent() }}){% endblock %}")
+	e.RegisterString("l2", "{% extends 'l1' %}{% block a %}2:"+probe+"({{ parent() }}){% endblock %}{% block b %}B:"+probe+"{% endblock %}")
+	ctx := map[string]interface{}{"x": x, "y": nil}
+	if hasZ {
+		ctx["z"] = nil
+		symTag("z-null")
+	}
+	p, perr := e.Render("plain", ctx)
+	name := []string{"l0", "l1", "l2"}[depth]
+	out, err := e.Render(name, ctx)
+	symCover("rendered")
+	symAssert(perr == nil && err == nil, "renders")
+	var want string
+	if depth == 1 {
+		want = "<" + p + "|1:" + p + "(" + p + ")|" + p + ">"
+	} else {
+		want = "<" + p + "|2:" + p + "(1:" + p + "(" + p + "))|B:" + p + ">"
+	}
+	symAssert(out == want, "same-variables-at-every-level")
+}
